@@ -179,7 +179,7 @@ def run_property(prop, tier, seed, only_units=None):
         if len(samples) < 12:
             samples.append({'unit': hr['unit'], 'engine': 'kani', 'harness': hr['harness'], 'kind': hr['kind'], 'checks': hr['checks'], 'status': hr['status']})
         if hr['ignored']:
-            trusted.append(f"{hr['unit']}::{hr['harness']}: {len(hr['ignored'])} failed check(s) ignored by name (float-SIMD pseudo overflow / declared ignore pattern)")
+            trusted.append(f"{hr['unit']}::{hr['harness']}: {len(hr['ignored'])} failed check(s) ignored by name (informational NaN checks / declared ignore pattern)")
         if hr['status'] == 'undecided':
             undecided.append(f"{hr['unit']}::{hr['harness']}: {hr.get('reason', 'undecided')}")
             continue
